@@ -72,10 +72,17 @@ ResetModel == /\ nxt' = [lv \in Levels |-> [n \in Nodes |-> IF n = HeadN THEN Ta
               /\ rpos' = HeadN /\ rseq' = <<>> /\ rdir' = "done"
 SStart == /\ Is("sstart") /\ Ev.k = K /\ A' = <<>>
           /\ (IF Strict THEN ResetModel ELSE UNCHANGED vars)
-ChainsMatch(e) == /\ \A lv \in Levels : KeysOfSeq(Fwd(lv)) = e.fw[lv + 1] /\ KeysOfSeq(Bwd(lv)) = e.bw[lv + 1]
-                  /\ hgt = e.hgt
+RECURSIVE FwdListP(_, _, _)
+FwdListP(lv, n, fuel) == IF n = TailN \/ n = -1 \/ fuel = 0 THEN <<>> ELSE <<n>> \o FwdListP(lv, nxt'[lv][n], fuel - 1)
+RECURSIVE BwdListP(_, _, _)
+BwdListP(lv, n, fuel) == IF n = HeadN \/ n = -1 \/ fuel = 0 THEN <<>> ELSE <<n>> \o BwdListP(lv, prv'[lv][n], fuel - 1)
+(* the chains of the model's NEXT state equal the logged real chains (e is the current event, not primed) *)
+ChainsMatchNext(fw, bw, h) ==
+    /\ \A lv \in Levels : KeysOfSeq(FwdListP(lv, nxt'[lv][HeadN], K + 2)) = fw[lv + 1]
+                         /\ KeysOfSeq(BwdListP(lv, prv'[lv][TailN], K + 2)) = bw[lv + 1]
+    /\ hgt' = h
 HStep == /\ Is("step")
-         /\ (IF Strict THEN (pc[Ev.t] = Ev.site /\ Step(Ev.t) /\ ChainsMatch(Ev)') ELSE UNCHANGED vars)
+         /\ (IF Strict THEN (pc[Ev.t] = Ev.site /\ Step(Ev.t) /\ ChainsMatchNext(Trace[l].fw, Trace[l].bw, Trace[l].hgt)) ELSE UNCHANGED vars)
          /\ UNCHANGED A
 HRet == /\ Is("ret")
         /\ (Strict => (pc[Ev.t] = "done" /\ res[Ev.t] = Ev.res))
